@@ -17,10 +17,20 @@ LEVEL = "exploration"
 
 
 # ------------------------------------------------------------------ (1) + (2)
+OTHER_CHARS = ["\r", "\t", " ", "\x0b", "\x0c", "\x1c", "\x1d", "\x1e", "\x85", "\u2028", "\u2029", "\x00"]
+
+
 def texts(maxlen):
     for n in range(0, maxlen + 1):
         for t in itertools.product("a\n", repeat=n):
             yield "".join(t)
+    # only the line feed ends a line: every other character (carriage return, form feed, the Unicode separators that
+    # str.splitlines() honours ...) is an ordinary character of its line
+    for ch in OTHER_CHARS:
+        for n in range(1, min(maxlen, 6) + 1):
+            for t in itertools.product("a\n" + ch, repeat=n):
+                if ch in t:
+                    yield "".join(t)
 
 
 def ref_line(text, off):
@@ -183,6 +193,27 @@ def layouts(ntok, maxdev):
                 yield g
 
 
+def token_composites(tokens):
+    """-> [(first token index, last located token index, node class)] for member accesses and indexings in a token sequence."""
+    out = []
+    for i, t in enumerate(tokens):
+        if t[1] and i + 2 < len(tokens) and tokens[i + 1][0] == "." and tokens[i + 2][1]:
+            out.append((i, i + 2, "MemberAccessExpression"))
+        if t[1] and i + 2 < len(tokens) and tokens[i + 1][0] == "[" and t[0][0].isalpha():
+            depth, j = 0, i + 1
+            while j < len(tokens):
+                if tokens[j][0] == "[":
+                    depth += 1
+                elif tokens[j][0] == "]":
+                    depth -= 1
+                    if depth == 0:
+                        break
+                j += 1
+            last = max(k for k in range(i + 2, j) if tokens[k][1])
+            out.append((i, last, "ArrayExpression"))
+    return out
+
+
 def located_nodes(tree):
     """All AST nodes with a known location: (begin, end, class name)."""
     out = []
@@ -297,6 +328,17 @@ def w_layout(job):
             if bad:
                 fail(f"C20|layout|hull|{name}|{bad[0][0]}>{bad[0][1]}", {"part": "layout", "program": name, "source": src,
                      "expected": "after UpdateLocations every node covers its located children", "observed": str(bad[:3])})
+                continue
+            # composites read off the TOKENS (not off the tree's own notion of children): `x . member` and `x [ ... ]` are covered
+            # from the first character of x to the last character of the member / the index expression
+            nodes = located_nodes(tree)
+            for i, j, cls in token_composites(tokens):
+                b, e = offs[i][0], offs[j][1]
+                if not any(c == cls and nb <= b and ne >= e for nb, ne, c in nodes):
+                    have = [(nb, ne) for nb, ne, c in nodes if c == cls and nb == b]
+                    fail(f"C20|layout|composite-does-not-cover-its-tokens|{name}|{cls}", {"part": "layout", "program": name, "source": src,
+                         "expected": f"a {cls} covering {b}-{e} = {src[b:e]!r}", "observed": f"{cls} nodes starting there: {have} = {[src[x:y] for x, y in have]}"})
+                    break
     return n, nt, fails, counts
 
 
